@@ -24,12 +24,12 @@ SPEC = dict(
              instances=[I(e, bound='whole value range of the integer type') for e in ['int_u8', 'int_i8', 'int_u16', 'int_i16', 'int_u32', 'int_i32', 'int_u64', 'int_i64', 'int_range', 'bool']]),
         dict(name='sasl', harness='h_sasl.cpp', tus=['src/base/QXmppSasl.cpp', 'src/base/QXmppStreamManagement.cpp', 'src/base/QXmppUtils.cpp', 'src/base/QXmppStanza.cpp'], models=['qt_core.c', 'qt_list.c', 'qt_dom.c'],
              instances=[I(e, unwind=10) for e in ['sasl_auth', 'sasl_challenge', 'sasl_response', 'sasl_success', 'fast_token_request', 'fast_request', 'sasl2_challenge', 'sasl2_response']]
-                       + CASES('sasl_failure', FAIL_CASES, quick=[0], unwind=10) + CASES('bind2_feature', 2, quick=[0], unwind=10) + CASES('bind2_request', 4, quick=[0, 4, 13, 15], unwind=10)
-                       + CASES('bind2_bound', 2, unwind=10) + CASES('fast_feature', 2, quick=[0], unwind=10) + CASES('sasl2_failure', FAIL2_CASES, quick=[0, 3, 21], unwind=10)
-                       + CASES('sasl2_continue', 3, quick=[], unwind=10) + CASES('sasl2_abort', 1, unwind=10)
-                       + CASES('sasl2_success', 5, quick=[0, 31, 5, 18], unwind=10) + CASES('sasl2_authenticate', 7, quick=[], unwind=10)),
+                       + CASES('sasl_failure', FAIL_CASES, unwind=10) + CASES('bind2_feature', 2, unwind=10) + CASES('bind2_request', [c for c in range(64) if (c & 8) or c < 8], unwind=10)
+                       + CASES('bind2_bound', 2, unwind=10) + CASES('fast_feature', 2, unwind=10) + CASES('sasl2_failure', FAIL2_CASES, unwind=10)
+                       + CASES('sasl2_continue', 3, unwind=10) + CASES('sasl2_abort', 1, unwind=10)
+                       + CASES('sasl2_success', 5, unwind=10) + CASES('sasl2_authenticate', 7, quick=[0, 127, 85, 42, 3, 124, 31, 96, 7, 64], unwind=10)),
     ],
-    bounds=['typed scalar helpers: whole value range of each integer type', 'nonza codecs: free-text fields 0..2 arbitrary UTF-16 code units (markup metacharacters, quotes, non-ASCII and surrogates are ordinary units for the tree model), byte arrays 0..3 arbitrary bytes, integers full range, lists <= 2 entries, every combination of optional children (one cbmc instance per structural case, values symbolic)'],
+    bounds=['typed scalar helpers: whole value range of each integer type', 'nonza codecs: free-text fields 0..2 arbitrary UTF-16 code units (fields whose emptiness gates an element: empty or exactly 2 units, as a structural case) (markup metacharacters, quotes, non-ASCII and surrogates are ordinary units for the tree model), byte arrays 0..3 arbitrary bytes, integers full range, lists <= 2 entries, every combination of optional children (one cbmc instance per structural case, values symbolic)'],
     assumptions=['QXmlStreamWriter writes into, and QDomElement reads from, the same tree model: Qt escaping/tokenising are trusted, so markup injection through Qt itself is outside; a raw device write would be flagged as unmodelled',
                  'numbers are abstract strings (QString::number / toUInt... are inverse by contract with the range check of the target type); base64 is an abstract injective tagging',
                  'Sasl2::Continue is assumed to carry >= 1 task (validity predicate of XEP-0388)'],
